@@ -6,6 +6,7 @@ import OFProps.C11.IO
 import OFModel.Config.Webvis
 import OFProps.C11.REST
 import OFModel.Config.Util
+import OFProps.C11.MQTTOut
 /-!
 # C11 — property theorems
 
@@ -1058,6 +1059,123 @@ theorem C11_idempotent_REST (env : Env) (henv : IsDirStable env) (c c' : Dict) (
             rw [← hg kDeclaredFps, e3, e4]
 
 
+/-! ## MQTTOut
+
+`MQTTOut.normalize_config` takes `outputs` out and (when it is an empty list, which is kept) puts it back at the end of
+the dict, and appends `mappings` when it was missing, so a second pass may list the same entries in another order: as
+for Recorder and REST the theorem is stated with `SameEntries` (Python dict equality). -/
+
+/-- **C11 (MQTTOut, idempotence)**: for every configuration (any keys, any values, any validator outcomes), if
+`MQTTOut.normalize_config` accepts it, the second pass succeeds and every key reads exactly as after the first pass. -/
+theorem C11_idempotent_MQTTOut (env : Env) (c c' : Dict) (h : normalizeMQTTOut env c = .ok c') :
+    ∃ c'', normalizeMQTTOut env c' = .ok c'' ∧ SameEntries c'' c' := by
+  unfold normalizeMQTTOut at h
+  split at h
+  · cases h
+  · rename_i c1 hF
+    simp only at h
+    have hk1 : lookup c1 kOutputs = none := by
+      rw [lookup_none_iff, keys_normalizeFilter env _ _ hF]; exact not_mem_keys_dictDel c kOutputs
+    have hNF : NFFilter env c1 := C11_nf_Filter_out env _ _ hF
+    have hnstr : isStrV (splitCommasMaybe (getD c kOutputs)) = false := by
+      cases hs : isStrV (splitCommasMaybe (getD c kOutputs))
+      · rfl
+      · exact absurd hs (by intro h'; exact splitCommasMaybe_not_str _ h')
+    generalize splitCommasMaybe (getD c kOutputs) = outputs at h hnstr
+    split at h
+    · cases h
+    · rename_i hsrc
+      split at h
+      · cases h
+      · rename_i c3 h3
+        split at h
+        · cases h
+        · rename_i hcid
+          split at h
+          · cases h
+          · rename_i M hM
+            injection h with h; subst h
+            have f2 : ∀ k, k ≠ kOutputs → lookup (putBack kOutputs outputs c1) k = lookup c1 k :=
+              fun k hk => lookup_putBack_ne _ _ _ _ hk
+            -- keys the output block does not touch read as in c1
+            have f3 : ∀ k, k ≠ kOutputs → k ≠ kBaseTopic → k ≠ kBrokerHost → k ≠ kBrokerPort → k ≠ kMappings →
+                k ≠ kQos → k ≠ kRetain → lookup c3 k = lookup c1 k := by
+              intro k a b d e f g i
+              split at h3
+              · rw [(mqttOutput_frame _ _ _ h3).2 k a b d e f g i, f2 k a]
+              · injection h3 with h3; subst h3; exact f2 k a
+            -- how `outputs` reads after the first pass: deleted / never there, or a kept falsy value
+            have hS : lookup c3 kOutputs = none ∨
+                ∃ v, lookup c3 kOutputs = some v ∧ v ≠ .null ∧ truthy v = false ∧ isStrV v = false := by
+              split at h3
+              · left; exact (mqttOutput_frame _ _ _ h3).1
+              · rename_i hfalsy
+                injection h3 with h3; subst h3
+                by_cases hn : outputs = .null
+                · left; subst hn; simp [putBack, hk1]
+                · right
+                  refine ⟨outputs, ?_, hn, by simpa using hfalsy, hnstr⟩
+                  simp [putBack, hn, lookup_dictSet_eq]
+            obtain ⟨hMns, hMfix⟩ := mqttMappings_fixed _ M (by
+              cases hs : isStrV (splitCommasMaybe (getD c3 kMappings))
+              · rfl
+              · exact absurd hs (by intro h'; exact splitCommasMaybe_not_str _ h')) hM
+            generalize hc' : dictSet c3 kMappings M = c'
+            have fM : ∀ k, k ≠ kMappings → lookup c' k = lookup c3 k := by
+              intro k hk; rw [← hc']; exact lookup_dictSet_ne _ _ _ _ hk
+            have hMl : lookup c' kMappings = some M := by rw [← hc']; exact lookup_dictSet_eq _ _ _
+            have hS' : lookup c' kOutputs = none ∨
+                ∃ v, lookup c' kOutputs = some v ∧ v ≠ .null ∧ truthy v = false ∧ isStrV v = false := by
+              rw [fM _ (by decide)]; exact hS
+            -- second pass
+            let d := dictDel c' kOutputs
+            have hd : ∀ k, k ≠ kOutputs → lookup d k = lookup c' k := fun k hk => lookup_dictDel_ne _ _ _ hk
+            have hNFd : NFFilter env d := by
+              have g : ∀ k, k ≠ kOutputs → k ≠ kBaseTopic → k ≠ kBrokerHost → k ≠ kBrokerPort → k ≠ kMappings →
+                  k ≠ kQos → k ≠ kRetain → getD d k = getD c1 k := by
+                intro k a b e f g i j
+                exact getD_of_lookup_eq (by rw [hd k a, fM k g, f3 k a b e f g i j])
+              apply NFFilter_congr env c1 d hNF
+              · exact g _ (by decide) (by decide) (by decide) (by decide) (by decide) (by decide) (by decide)
+              · right; exact getD_dictDel_eq _ _
+              · exact g _ (by decide) (by decide) (by decide) (by decide) (by decide) (by decide) (by decide)
+              · exact g _ (by decide) (by decide) (by decide) (by decide) (by decide) (by decide) (by decide)
+              · exact g _ (by decide) (by decide) (by decide) (by decide) (by decide) (by decide) (by decide)
+              · exact g _ (by decide) (by decide) (by decide) (by decide) (by decide) (by decide) (by decide)
+            -- the comma-split `outputs` of the second pass and the dict with it put back
+            have hs2 : ∃ s', splitCommasMaybe (getD c' kOutputs) = s' ∧ truthy s' = false ∧
+                SameEntries (putBack kOutputs s' d) c' := by
+              rcases hS' with hnone | ⟨v, hv, hvn, hvf, hvs⟩
+              · refine ⟨.null, by simp [getD, hnone, splitCommasMaybe], rfl, ?_⟩
+                intro k
+                by_cases hk : k = kOutputs
+                · subst hk
+                  simp only [putBack, ↓reduceIte]
+                  rw [hnone]; exact (lookup_none_iff _ _).2 (not_mem_keys_dictDel _ _)
+                · simp only [putBack, ↓reduceIte]; exact hd k hk
+              · refine ⟨v, by rw [getD_eq_of_lookup_some hv, splitCommasMaybe_of_not_str v hvs], hvf, ?_⟩
+                intro k
+                by_cases hk : k = kOutputs
+                · subst hk; simp [putBack, hvn, lookup_dictSet_eq, hv]
+                · simp only [putBack, hvn, ↓reduceIte]
+                  rw [lookup_dictSet_ne _ _ _ _ hk]; exact hd k hk
+            obtain ⟨s', hs', hs'f, hsame⟩ := hs2
+            have hg : ∀ k, getD (putBack kOutputs s' d) k = getD c' k := fun k => getD_of_lookup_eq (hsame k)
+            have hsrc' : getD c' kSources = getD (putBack kOutputs outputs c1) kSources := getD_of_lookup_eq (by
+              rw [fM _ (by decide), f3 _ (by decide) (by decide) (by decide) (by decide) (by decide) (by decide) (by decide),
+                f2 _ (by decide)])
+            have hcid' : getD c' kClientId = getD c3 kClientId := getD_of_lookup_eq (fM _ (by decide))
+            have hMg : getD c' kMappings = M := getD_eq_of_lookup_some hMl
+            refine ⟨dictSet (putBack kOutputs s' d) kMappings M, ?_, ?_⟩
+            · unfold normalizeMQTTOut
+              simp only [show dictDel c' kOutputs = d from rfl, C11_nf_Filter_fixed env d hNFd, hs', hg, hsrc', hsrc, hs'f,
+                Bool.false_eq_true, ↓reduceIte, hcid', hcid, hMg, splitCommasMaybe_of_not_str M hMns, hMfix]
+            · intro k
+              by_cases hk : k = kMappings
+              · subst hk; rw [lookup_dictSet_eq, hMl]
+              · rw [lookup_dictSet_ne _ _ _ _ hk]; exact hsame k
+
+
 /-! ## Util -/
 
 theorem parseXform_not_str (s : Str) (v : Val) (h : parseXform s = .ok v) : isStrV v = false := by
@@ -1186,6 +1304,96 @@ theorem C11_text_eq_struct_item_notopic (spec : IOSpec) (uri : Str) (opts : Dict
   simp only [renderTopics] at this
   simp only [parseItem, this, C11_options_roundtrip uri opts hv]
 
+/-! ## text form = structured form, per MQTTOut mapping -/
+
+/-- a piece of a mapping's source (`src_topic`, one path segment): no outer blanks, no `/`, no `>` -/
+def validMapSeg (s : Str) : Bool := strip s = s && !s.contains '/' && !s.contains '>'
+
+theorem validMapSeg_spec (s : Str) (h : validMapSeg s = true) : strip s = s ∧ '/' ∉ s ∧ '>' ∉ s := by
+  simp only [validMapSeg, Bool.and_eq_true, decide_eq_true_eq, Bool.not_eq_true'] at h
+  exact ⟨h.1.1, mem_of_contains_false h.1.2, mem_of_contains_false h.2⟩
+
+theorem not_mem_joinHT (ch sep : Char) (hne : ch ≠ sep) (h : Str) (t : List Str) (hh : ch ∉ h) (ht : ∀ x ∈ t, ch ∉ x) :
+    ch ∉ joinHT sep h t := by
+  unfold joinHT
+  intro hm
+  rcases List.mem_append.1 hm with e | e
+  · exact hh e
+  · obtain ⟨x, hx, hxm⟩ := List.mem_flatMap.1 e
+    rcases List.mem_cons.1 hxm with g | g
+    · exact hne g
+    · exact ht x hx g
+
+/-- the source text `src_topic/seg/seg…` splits back into its topic and path -/
+theorem mapping_src_split (srcTopic a : Str) (r : List Str) (ht : validMapSeg srcTopic = true)
+    (hp : (a :: r).all validMapSeg = true) :
+    splitHT '/' (joinHT '/' srcTopic (a :: r)) = (srcTopic, a :: r) ∧ (a :: r).map strip = a :: r ∧
+      '>' ∉ joinHT '/' srcTopic (a :: r) ∧ joinHT '/' srcTopic (a :: r) ≠ [] := by
+  have hsegs : ∀ x ∈ a :: r, strip x = x ∧ '/' ∉ x ∧ '>' ∉ x :=
+    fun x hx => validMapSeg_spec x (List.all_eq_true.1 hp x hx)
+  obtain ⟨_, t2, t3⟩ := validMapSeg_spec srcTopic ht
+  refine ⟨splitHT_joinHT '/' _ _ t2 (fun x hx => (hsegs x hx).2.1),
+    map_eq_self_of_forall _ _ (fun x hx => (hsegs x hx).1),
+    not_mem_joinHT '>' '/' (by decide) _ _ t3 (fun x hx => (hsegs x hx).2.2), ?_⟩
+  rw [joinHT_cons]; simp
+
+/-- **C11 (text = structure, MQTTOut mapping with destination)**: for every source topic (possibly empty: the solo
+topic), non-empty source path, destination and option dictionary satisfying the decidable validity hypotheses, the text
+mapping `src_topic/src/path>dst!opts` is converted by the first loop of `MQTTOut.normalize_config` to exactly the
+documented structure `{dst_topic, src_topic, src_path, options}`. -/
+theorem C11_text_eq_struct_mapping (srcTopic a : Str) (r : List Str) (dst : Str) (opts : Dict)
+    (hv : validOptions (joinHT '/' srcTopic (a :: r) ++ '>' :: dst) opts = true)
+    (hmq : (startsWith "tcp://".toList (renderOptions (joinHT '/' srcTopic (a :: r) ++ '>' :: dst) opts) ||
+            startsWith "ipc://".toList (renderOptions (joinHT '/' srcTopic (a :: r) ++ '>' :: dst) opts)) = false)
+    (ht : validMapSeg srcTopic = true) (hp : (a :: r).all validMapSeg = true)
+    (hs : strip (joinHT '/' srcTopic (a :: r)) = joinHT '/' srcTopic (a :: r))
+    (hd : dst ≠ [] ∧ strip dst = dst ∧ dst.contains '>' = false) :
+    parseMapping (renderOptions (joinHT '/' srcTopic (a :: r) ++ '>' :: dst) opts) =
+      .ok (mkMapping (.str dst) (orNull srcTopic) (.str (joinHT '/' a r)) opts) := by
+  obtain ⟨h1, h2, h3, h4⟩ := mapping_src_split srcTopic a r ht hp
+  obtain ⟨t1, _, _⟩ := validMapSeg_spec srcTopic ht
+  obtain ⟨d1, d2, d3⟩ := hd
+  unfold parseMapping
+  rw [hmq]
+  simp only [Bool.false_eq_true, ↓reduceIte, C11_options_roundtrip _ _ hv]
+  rw [splitHT_append '>' dst _ h3, splitHT_noSep '>' dst (mem_of_contains_false d3)]
+  simp only [hs, d2, h1, h2, t1]
+  simp [h4, d1, orNull]
+
+/-- the same without `>dst`: `dst_topic: None` (the second loop then fills in `frames` / the last path segment) -/
+theorem C11_text_eq_struct_mapping_nodst (srcTopic a : Str) (r : List Str) (opts : Dict)
+    (hv : validOptions (joinHT '/' srcTopic (a :: r)) opts = true)
+    (hmq : (startsWith "tcp://".toList (renderOptions (joinHT '/' srcTopic (a :: r)) opts) ||
+            startsWith "ipc://".toList (renderOptions (joinHT '/' srcTopic (a :: r)) opts)) = false)
+    (ht : validMapSeg srcTopic = true) (hp : (a :: r).all validMapSeg = true)
+    (hs : strip (joinHT '/' srcTopic (a :: r)) = joinHT '/' srcTopic (a :: r)) :
+    parseMapping (renderOptions (joinHT '/' srcTopic (a :: r)) opts) =
+      .ok (mkMapping .null (orNull srcTopic) (.str (joinHT '/' a r)) opts) := by
+  obtain ⟨h1, h2, h3, h4⟩ := mapping_src_split srcTopic a r ht hp
+  obtain ⟨t1, _, _⟩ := validMapSeg_spec srcTopic ht
+  unfold parseMapping
+  rw [hmq]
+  simp only [Bool.false_eq_true, ↓reduceIte, C11_options_roundtrip _ _ hv]
+  rw [splitHT_noSep '>' _ h3]
+  simp only [hs, h1, h2, t1]
+  simp [h4, orNull]
+
+/-- a bare topic: `{src_topic: topic}`, everything else `None` -/
+theorem C11_text_eq_struct_mapping_topic (topic : Str) (opts : Dict)
+    (hv : validOptions topic opts = true)
+    (hmq : (startsWith "tcp://".toList (renderOptions topic opts) || startsWith "ipc://".toList (renderOptions topic opts)) = false)
+    (ht : validMapSeg topic = true) (hne : topic ≠ []) :
+    parseMapping (renderOptions topic opts) = .ok (mkMapping .null (.str topic) .null opts) := by
+  obtain ⟨t1, t2, t3⟩ := validMapSeg_spec topic ht
+  unfold parseMapping
+  rw [hmq]
+  simp only [Bool.false_eq_true, ↓reduceIte, C11_options_roundtrip _ _ hv]
+  rw [splitHT_noSep '>' _ t3]
+  simp only [t1]
+  rw [splitHT_noSep '/' _ t2]
+  simp [hne, t1, orNull]
+
+
 /-! ## non-vacuity and negative witnesses (classes) -/
 
 def exCfg (kvs : List (String × Val)) : Dict := kvs.map (fun p => (p.1.toList, p.2))
@@ -1243,6 +1451,81 @@ example :
       some (.list [.dict (exCfg [("methods", .list [sv "GET", sv "POST"]), ("path", sv "x"), ("topic", sv "t")])], true) := by
   decide +kernel
 
+
+/-- MQTTOut: the docstring's output notation `mqtt://host:port/base_topic/ ; topic ; topic2/image > topic2_frames` (with
+default and per-mapping options) is taken apart into broker, base topic, default options and structured mappings, the
+implicit destination of `/data/sub/more` is materialised, and the result is a fixed point: the hypothesis of
+`C11_idempotent_MQTTOut` is satisfiable and the first pass does change the config -/
+example :
+    (normalizeMQTTOut {} (exCfg [("id", sv "m"), ("sources", sv "tcp://a"),
+      ("outputs", sv "mqtt://host:1883/base_topic/ !qos=1 ; topic ; topic2/image > topic2_frames ! retain ; /data/sub/more")])).toOption.map
+      (fun c => (c, normalizeMQTTOut {} c == .ok c)) =
+    some (exCfg [("id", sv "m"), ("sources", .list [sv "tcp://a"]),
+      ("mappings", .list [
+        .dict (exCfg [("dst_topic", .null), ("src_topic", sv "topic"), ("src_path", .null), ("options", .dict [])]),
+        .dict (exCfg [("dst_topic", sv "topic2_frames"), ("src_topic", sv "topic2"), ("src_path", sv "image"),
+          ("options", .dict (exCfg [("retain", .bool true)]))]),
+        .dict (exCfg [("dst_topic", sv "more"), ("src_topic", .null), ("src_path", sv "data/sub/more"), ("options", .dict [])])]),
+      ("qos", .int 1), ("base_topic", sv "base_topic/"), ("broker_host", sv "host"), ("broker_port", .int 1883)], true) := by
+  decide +kernel
+
+/-- MQTTOut: text form = comma-list form = documented parameter form -/
+example :
+    normalizeMQTTOut {} (exCfg [("id", sv "m"), ("sources", sv "tcp://a"),
+      ("outputs", sv "mqtt://host:1883/base ! retain ; topic/data/sub > other ! qos=0 ; topic/image")]) =
+    normalizeMQTTOut {} (exCfg [("id", sv "m"), ("sources", sv "tcp://a"),
+      ("mappings", .list [
+        .dict (exCfg [("dst_topic", sv "other"), ("src_topic", sv "topic"), ("src_path", sv "data/sub"),
+          ("options", .dict (exCfg [("qos", .int 0)]))]),
+        .dict (exCfg [("dst_topic", .null), ("src_topic", sv "topic"), ("src_path", sv "image")])]),
+      ("retain", .bool true), ("base_topic", sv "base"), ("broker_host", sv "host"), ("broker_port", .int 1883)]) ∧
+    normalizeMQTTOut {} (exCfg [("id", sv "m"), ("sources", sv "tcp://a"), ("outputs", sv "mqtt://host:1883/base ! retain"),
+      ("mappings", sv "topic/data/sub > other ! qos=0 , topic/image")]) =
+    normalizeMQTTOut {} (exCfg [("id", sv "m"), ("sources", sv "tcp://a"),
+      ("mappings", .list [sv "topic/data/sub > other ! qos=0", sv "topic/image"]),
+      ("retain", .bool true), ("base_topic", sv "base"), ("broker_host", sv "host"), ("broker_port", .int 1883)]) ∧
+    (normalizeMQTTOut {} (exCfg [("id", sv "m"), ("sources", sv "tcp://a"),
+      ("outputs", sv "mqtt://host:1883/base ! retain ; topic/data/sub > other ! qos=0 ; topic/image")])).toOption.isSome = true := by
+  decide +kernel
+
+/-- MQTTOut: why the theorem is stated with `SameEntries`: an empty `outputs` is kept and `mappings` is appended after it,
+the second pass moves `outputs` behind `mappings` - the same entries in another order (equal as Python dicts) -/
+example :
+    (normalizeMQTTOut {} (exCfg [("id", sv "m"), ("sources", sv "tcp://a"), ("outputs", sv "")])).toOption.map
+      (fun c => (c, (normalizeMQTTOut {} c).toOption)) =
+    some (exCfg [("id", sv "m"), ("sources", .list [sv "tcp://a"]), ("outputs", .list []), ("mappings", .null)],
+      some (exCfg [("id", sv "m"), ("sources", .list [sv "tcp://a"]), ("mappings", .null), ("outputs", .list [])])) := by
+  decide +kernel
+
+/-- MQTTOut: the errors of the convenience output (mappings / options / base topic / broker given twice, credentials,
+non-`mqtt://` output, unknown option) and of the mapping checks (destination without path, path under `image`, path not
+under `data`, two implicit mappings, duplicate destination); the random `client_id = True` is outside the model -/
+example :
+    ([([("outputs", sv "mqtt://h;t"), ("mappings", sv "t")], Err.valueError), ([("outputs", sv "mqtt://h!qos=1"), ("qos", .int 2)], .valueError),
+     ([("outputs", sv "mqtt://h/b"), ("base_topic", sv "x")], .valueError), ([("outputs", sv "mqtt://h"), ("broker_port", .int 1)], .valueError),
+     ([("outputs", sv "mqtt://u:p@h")], .valueError), ([("outputs", sv "tcp://h")], .valueError), ([("outputs", sv "mqtt://h!zz=1")], .valueError),
+     ([("outputs", sv "mqtt://h:x")], .valueError), ([("outputs", sv "mqtt://a, mqtt://b")], .valueError),
+     ([("mappings", sv "t > d")], .valueError), ([("mappings", sv "t/image/x")], .valueError), ([("mappings", sv "t/meta")], .valueError),
+     ([("mappings", sv "t/data/")], .valueError), ([("mappings", sv "a, b")], .valueError), ([("mappings", sv "a/data/x, b/data/x")], .valueError),
+     ([("mappings", sv "tcp://x")], .valueError), ([("mappings", .list [.int 5])], .attributeError), ([("mappings", .int 5)], .typeError),
+     ([("client_id", .bool true)], .other)] : List (List (String × Val) × Err)).all
+      (fun p => normalizeMQTTOut {} (exCfg ([("id", sv "m"), ("sources", sv "tcp://a")] ++ p.1)) == .error p.2) = true := by
+  decide +kernel
+
+/-- the mapping-level text = structure theorems are not vacuous (`topic2/data/sub/more>other!qos=0!retain`, the solo-topic
+form `/image!no-retain`, a bare topic) -/
+example :
+    validOptions (joinHT '/' "topic2".toList ["data".toList, "sub".toList, "more".toList] ++ '>' :: "other".toList)
+      [("qos".toList, .int 0), ("retain".toList, .bool true)] = true ∧
+    validMapSeg "topic2".toList = true ∧ ["data".toList, "sub".toList, "more".toList].all validMapSeg = true ∧
+    strip (joinHT '/' "topic2".toList ["data".toList, "sub".toList, "more".toList]) =
+      joinHT '/' "topic2".toList ["data".toList, "sub".toList, "more".toList] ∧
+    parseMapping "topic2/data/sub/more>other!qos=0!retain".toList =
+      .ok (mkMapping (sv "other") (sv "topic2") (sv "data/sub/more") [("qos".toList, .int 0), ("retain".toList, .bool true)]) ∧
+    validOptions (joinHT '/' [] ["image".toList]) [("retain".toList, .bool false)] = true ∧ validMapSeg [] = true ∧
+    parseMapping "/image!no-retain".toList = .ok (mkMapping .null .null (sv "image") [("retain".toList, .bool false)]) ∧
+    validOptions "topic".toList [] = true ∧ parseMapping "topic".toList = .ok (mkMapping .null (sv "topic") .null []) := by
+  decide +kernel
 
 /-- Util: the docstring example `'flipx;main, maxsize 640+480lin;main;other'`, and the result is a fixed point -/
 example : (normalizeUtil {} (exCfg [("id", sv "u"), ("xforms", sv "flipx;main, maxsize 640+480lin;main;other"), ("log", .bool true)])).toOption.map
